@@ -33,7 +33,7 @@ class Unsupported(Exception):
 LEAN_T = {
     "S": "List Char", "I": "Int", "B": "Bool", "T": "Item", "LS": "List (List Char)", "LI": "List Int",
     "GO": "OldGC", "GN": "NewGCO", "D": "Dna", "Q": "NSeq", "RE": "RE", "OM": "Option Int", "IDX": "Idx",
-    "BY": "List Nat", "U": "Unit",
+    "BY": "List Nat", "U": "Unit", "PM": "PM", "CA": "List (List Char)", "MTQ": "NSeq",
 }
 ERR = {"ValueError": "valueError", "AlphabetError": "alphabetError", "InvalidCodonError": "invalidCodon", "TypeError": "typeError"}
 KEYWORDS = {"end", "from", "at", "in", "do", "fun", "let", "then", "else", "if", "match", "with", "open", "where", "show", "have", "by", "def"}
@@ -57,6 +57,8 @@ SPECS = [
      [("self", "Q"), ("gc", "GN"), ("incomplete_ok", "B"), ("include_stop", "B"), ("trim_stop", "B")], "S"),
     ("old", "sequence.py", "has_terminal_stop", "old_seq_has_terminal_stop", [("self", "Q"), ("gc", "GO"), ("strict", "B")], "B"),
     ("old", "sequence.py", "trim_stop_codon", "old_seq_trim_stop_codon", [("self", "Q"), ("gc", "GO"), ("strict", "B")], "Q"),
+    ("old", "sequence.py", "get_translation", "old_seq_get_translation",
+     [("self", "Q"), ("gc", "GO"), ("incomplete_ok", "B"), ("include_stop", "B"), ("trim_stop", "B")], "S"),
 ]
 # dictionaries / attributes of the objects: (receiver type, attribute) -> ("dict", key type, value type) | ("attr", type, lean text)
 FIELDS = {
@@ -114,6 +116,9 @@ class Fn:
     def __init__(self, fam, fdef: ast.FunctionDef, spec, registry, consts):
         self.fam, self.f, self.spec, self.reg, self.consts = fam, fdef, spec, registry, consts
         self.n = 0
+        self.fall = None       # (kind, text): what falling off the end of the current block / `continue` means
+        self.recursive = False
+        self.aux = []          # lifted loop bodies: (name, signature, body text), in dependency order
 
     def fresh(self):
         self.n += 1
@@ -157,7 +162,12 @@ class Fn:
                 raise Unsupported(f"argument {p} of {lean_name} missing")
             texts.append(self.coerce(tt, t, tx, f"argument {p} of {lean_name}"))
         v = self.fresh()
-        pre.append((v, f"{lean_name} {' '.join(texts)}"))
+        if lean_name == self.spec[3]:
+            # a self-recursive call: the definition gets a fuel argument (two levels; see `translate`)
+            self.recursive = True
+            pre.append((v, f"{lean_name}_fuel fuel {' '.join(texts)}"))
+        else:
+            pre.append((v, f"{lean_name} {' '.join(texts)}"))
         return spec[5], v
 
     def coerce(self, have, want, text, what):
@@ -173,6 +183,8 @@ class Fn:
             return f"(NSeq.array {text})"
         if want == "S" and have == "Q":
             return f"(NSeq.str {text})"
+        if want == "S" and have == "T":
+            return f"(Item.asStr {text})"
         if want == "LI" and have == ("L", "I"):
             return text
         if want == "I" and have == "B":
@@ -300,7 +312,7 @@ class Fn:
             return ta, f"(if {c} then {sa} else {sb})"
         if isinstance(n, ast.Tuple):
             parts = [self.ex(e, env, pre) for e in n.elts]
-            if all(t == "S" for t, _ in parts) and all(isinstance(e, ast.Constant) for e in n.elts):
+            if parts and all(t == "S" for t, _ in parts):
                 return "LS", "[" + ", ".join(s for _, s in parts) + "]"
             return ("Tup", tuple(t for t, _ in parts)), "(" + ", ".join(s for _, s in parts) + ")"
         if isinstance(n, ast.List):
@@ -330,6 +342,8 @@ class Fn:
                 return "LS", f"(NSeq.gapStrs {s})"
             if t == "Q" and n.attr == "alphabet":
                 return "S", f"{s}.mtChars"
+            if t == "Q" and n.attr == "label":
+                return "S", f"(NSeq.label {s})"
             raise Unsupported(f"moltype attribute {n.attr}")
         t, s = self.ex(n.value, env, pre)
         if (t, n.attr) in FIELDS:
@@ -339,6 +353,8 @@ class Fn:
             return f[1], f"{s}.{n.attr}"
         if t == "GM" and n.attr == "num_gaps":
             return "I", s
+        if t == "Q" and n.attr == "moltype":
+            return "MTQ", s
         raise Unsupported(f"attribute {n.attr} of {t}")
 
     def bound(self, b, env, pre):
@@ -459,6 +475,11 @@ class Fn:
                 if t in ("GO", "GN"):
                     return t, s
                 raise Unsupported("get_code of a non-object")
+            if name == "get_moltype" and len(n.args) == 1 and not n.keywords:
+                t, s = self.ex(n.args[0], env, pre)
+                if t == "S":
+                    return "PM", f"(protMoltype {s})"
+                raise Unsupported("get_moltype of a non-string")
             if name in self.reg_py:
                 return self.call_fn(self.reg_py[name], None, n.args, n.keywords, env, pre)
             raise Unsupported(f"call of {name}")
@@ -525,7 +546,32 @@ class Fn:
             raise Unsupported(f"{m} on {t} with {ta}")
         if isinstance(f.value, ast.Attribute) and f.value.attr == "__class__":
             raise Unsupported("constructor call outside an assignment")
+        if m == "with_gap_motif" and not n.args and isinstance(f.value, ast.Call) and isinstance(f.value.func, ast.Attribute) and f.value.func.attr == "get_alphabet":
+            # gc.get_alphabet(include_stop=e).with_gap_motif()
+            g = f.value
+            tg, sg = self.ex(g.func.value, env, pre)
+            kw = {k.arg: k.value for k in g.keywords}
+            if tg == "GO" and not g.args and set(kw) <= {"include_stop"}:
+                ti, si = self.ex(kw["include_stop"], env, pre) if kw else ("B", "false")
+                if ti == "B":
+                    return "CA", f"(OldGC.codonAlphabet {sg} {si})"
+            raise Unsupported("get_alphabet(...).with_gap_motif() of this shape")
         t, s = self.ex(f.value, env, pre)
+        if t == "MTQ" and m == "resolve_ambiguity" and len(n.args) == 1 and [k.arg for k in n.keywords] == ["alphabet"]:
+            ta, sa = self.ex(n.args[0], env, pre)
+            tb, sb = self.ex(n.keywords[0].value, env, pre)
+            if ta == "S" and tb == "CA":
+                v = self.fresh()
+                pre.append((v, f"NSeq.resolveAmbiguity {s} {sa} {sb}"))
+                return "LS", v
+            raise Unsupported(f"resolve_ambiguity({ta}, alphabet={tb})")
+        if t == "PM" and m == "what_ambiguity" and len(n.args) == 1 and not n.keywords:
+            ta, sa = self.ex(n.args[0], env, pre)
+            if ta == "LS":
+                return "S", f"(PM.whatAmbiguity {s} {sa})"
+            raise Unsupported(f"what_ambiguity of {ta}")
+        if t == "Q" and m == "to_dna" and not n.args and not n.keywords:
+            return "Q", f"(NSeq.toDna {s})"
         if t == "IDX" and m == "tobytes" and not n.args:
             return "BY", f"(Idx.tobytes {s})"
         if t == "BYS" and m == "decode":
@@ -589,8 +635,29 @@ class Fn:
     def block(self, stmts, env, ind):
         pad = "  " * ind
         if not stmts:
-            raise Unsupported("the function can fall off its end (returns None)")
+            if self.fall is None:
+                raise Unsupported("the function can fall off its end (returns None)")
+            return f"{pad}{self.fall[1]}"
         st, rest = stmts[0], stmts[1:]
+        if isinstance(st, ast.Continue):
+            if self.fall is None or self.fall[0] != "loop":
+                raise Unsupported("continue outside a translated loop")
+            return f"{pad}{self.fall[1]}"
+        if isinstance(st, ast.Return) and self.fall is not None:
+            raise Unsupported("return inside a loop / an exception handler")
+        if isinstance(st, ast.Expr) and isinstance(st.value, ast.Call) and isinstance(st.value.func, ast.Attribute) and st.value.func.attr == "append" \
+                and isinstance(st.value.func.value, ast.Name) and len(st.value.args) == 1 and not st.value.keywords:
+            # xs.append(e)  ->  let xs := xs ++ [e]
+            name = st.value.func.value.id
+            if env.get(name) not in ("LS", "LI"):
+                raise Unsupported(f"append to {name}, which is not a list of strings / integers")
+            pre = []
+            te, se = self.ex(st.value.args[0], env, pre)
+            se = self.coerce(te, "S" if env[name] == "LS" else "I", se, "append")
+            body = f"{pad}let {lname(name)} : {lt(env[name])} := {lname(name)} ++ [{se}]\n" + self.block(rest, env, ind)
+            return wrap(pre, body, ind, raw=True)
+        if isinstance(st, ast.Try):
+            return self.try_(st, rest, env, ind)
         if isinstance(st, ast.Expr) and isinstance(st.value, ast.Constant):
             return self.block(rest, env, ind)
         if isinstance(st, (ast.ImportFrom, ast.Import, ast.Pass)):
@@ -660,10 +727,93 @@ class Fn:
             if not rest and len(st.body) == 1 and isinstance(st.body[0], ast.Expr) and isinstance(st.body[0].value, ast.Yield) and not st.orelse:
                 comp = ast.ListComp(elt=st.body[0].value.value, generators=[ast.comprehension(target=st.target, iter=st.iter, ifs=[], is_async=0)])
                 return self.block([ast.Return(value=comp)], env, ind)
-            raise Unsupported("for loop")
+            return self.for_(st, rest, env, ind)
         if isinstance(st, ast.If):
             return self.if_(st, rest, env, ind)
         raise Unsupported(f"statement {type(st).__name__}: {ast.unparse(st)[:60]}")
+
+    def for_(self, st, rest, env, ind):
+        """for x in it: body   with the variables the body updates (assigned / appended to, defined before the loop) as the
+        state of a monadic left fold; `continue` / falling off the body yields the state, `raise` aborts the fold"""
+        pad = "  " * ind
+        if st.orelse or not isinstance(st.target, ast.Name):
+            raise Unsupported("for loop with else / a non-name target")
+        changed = set()
+        for node in ast.walk(ast.Module(body=st.body, type_ignores=[])):
+            if isinstance(node, ast.Assign):
+                for tg in node.targets:
+                    for e in ast.walk(tg):
+                        if isinstance(e, ast.Name):
+                            changed.add(e.id)
+            elif isinstance(node, (ast.AugAssign, ast.NamedExpr)):
+                raise Unsupported("augmented assignment / walrus inside a loop")
+            elif isinstance(node, (ast.Break, ast.Return, ast.Yield)):
+                raise Unsupported("break / return / yield inside a loop")
+            elif isinstance(node, ast.Call) and isinstance(node.func, ast.Attribute) and node.func.attr == "append" and isinstance(node.func.value, ast.Name):
+                changed.add(node.func.value.id)
+        state = sorted(v for v in changed if v in env)
+        if not state:
+            raise Unsupported("for loop that updates no variable defined before it")
+        if st.target.id in state:
+            raise Unsupported("loop variable is also loop state")
+        pre = []
+        ti, si = self.ex(st.iter, env, pre)
+        et = elem_type(ti)
+        si = iter_text(ti, si)
+        for v in state:
+            if isinstance(env[v], tuple):
+                raise Unsupported(f"loop state {v} of type {env[v]}")
+        tup = "(" + ", ".join(lname(v) for v in state) + ")" if len(state) > 1 else lname(state[0])
+        tupt = " × ".join(lt(env[v]) for v in state)
+        env2 = dict(env)
+        env2[st.target.id] = et
+        saved = self.fall
+        self.fall = ("loop", f".ok {tup}")
+        saved_n, self.n = self.n, 0  # the body is a definition of its own: temporaries are numbered from 1 there
+        try:
+            body = self.block(list(st.body), env2, 1)
+        finally:
+            self.fall = saved
+            self.n = saved_n
+        # the loop body becomes a definition of its own (all variables in scope are parameters; the state and the loop
+        # variable come last), so that a theorem can speak about the fold; textually identical bodies share one definition
+        cap = [(v, t) for v, t in env.items() if v not in state and v != st.target.id and simple_type(t)]
+        sig = " ".join(f"({lname(v)} : {lt(t)})" for v, t in cap) + f" ({tup} : {tupt}) ({lname(st.target.id)} : {lt(et)}) : Except PyErr ({tupt})"
+        name = None
+        for n0, sig0, body0 in self.aux:
+            if (sig0, body0) == (sig, body):
+                name = n0
+        if name is None:
+            name = f"{self.spec[3]}_for{len(self.aux) + 1}"
+            self.aux.append((name, sig, body))
+        fn = " ".join([name] + [lname(v) for v, _ in cap])
+        text = (f"{pad}Except.bind ({si}.foldlM ({fn}) {tup}) fun ({tup} : {tupt}) =>\n" + self.block(rest, env, ind))
+        return wrap(pre, text, ind, raw=True)
+
+    def try_(self, st, rest, env, ind):
+        """try: x = e  except E: …; x = e2     ->   Except.bind (pyTry (e) E (handler … .ok x)) fun x => rest"""
+        pad = "  " * ind
+        if st.orelse or st.finalbody or len(st.handlers) != 1 or len(st.body) != 1 or not self.simple_assign(st.body[0]):
+            raise Unsupported("try statement that is not `try: x = e / except E: …`")
+        h = st.handlers[0]
+        if not isinstance(h.type, ast.Name) or h.type.id not in ERR or h.name is not None:
+            raise Unsupported("exception handler that does not name one modelled exception class")
+        name = st.body[0].targets[0].id
+        if not (h.body and self.simple_assign(h.body[-1]) and h.body[-1].targets[0].id == name):
+            raise Unsupported("exception handler that does not end by assigning the variable of the try body")
+        p1 = []
+        t1, s1 = self.ex(st.body[0].value, env, p1)
+        tried = wrap(p1[:-1], p1[-1][1], ind + 2) if p1 and p1[-1][0] == s1 else wrap(p1, f".ok {s1}", ind + 2)
+        saved = self.fall
+        self.fall = ("value", f".ok {lname(name)}")
+        try:
+            handler = self.block(list(h.body), env, ind + 2)
+        finally:
+            self.fall = saved
+        env2 = dict(env)
+        env2[name] = t1
+        return (f"{pad}Except.bind (pyTry (\n{tried}) PyErr.{ERR[h.type.id]} (\n{handler})) fun ({lname(name)} : {lt(t1)}) =>\n"
+                + self.block(rest, env2, ind))
 
     def if_(self, st, rest, env, ind):
         pad = "  " * ind
@@ -725,14 +875,29 @@ class Fn:
             raise Unsupported(f"unmodelled parameters {extra}")
         body = self.block(self.f.body, env, 1)
         sig = " ".join(f"({lname(p)} : {lt(t)})" for p, t in params)
-        return f"/-- `{file}` `{py}` -/\ndef {lean} {sig} : Except PyErr ({lt(ret)}) :=\n{body}\n"
+        auxdefs = "".join(f"/-- `{file}` `{py}`: the body of a `for` loop (state and loop variable last) -/\ndef {n} {sg} :=\n{b}\n\n" for n, sg, b in self.aux)
+        if self.recursive:
+            # the function calls itself (old get_translation: an RNA sequence is converted and translated again): structural
+            # recursion on a fuel argument, two levels (the recursive call is made on a DNA sequence, which does not recurse)
+            body = "\n".join("  " + line for line in body.split("\n"))
+            args = " ".join(lname(p) for p, _ in params)
+            return (auxdefs + f"/-- `{file}` `{py}` (self-recursive: fuel) -/\ndef {lean}_fuel (fuel0 : Nat) {sig} : Except PyErr ({lt(ret)}) :=\n"
+                    f"  match fuel0 with\n  | 0 => .error PyErr.other\n  | fuel + 1 =>\n{body}\n\n"
+                    f"/-- `{file}` `{py}` -/\ndef {lean} {sig} : Except PyErr ({lt(ret)}) :=\n  {lean}_fuel 2 {args}\n")
+        return auxdefs + f"/-- `{file}` `{py}` -/\ndef {lean} {sig} : Except PyErr ({lt(ret)}) :=\n{body}\n"
+
+
+def simple_type(t):
+    if isinstance(t, tuple):
+        return t[0] in ("L", "Tup") and all(simple_type(x) for x in (t[1] if t[0] == "Tup" else (t[1],)))
+    return t in LEAN_T
 
 
 def terminates(stmts):
     if not stmts:
         return False
     last = stmts[-1]
-    if isinstance(last, (ast.Return, ast.Raise)):
+    if isinstance(last, (ast.Return, ast.Raise, ast.Continue)):
         return True
     if isinstance(last, ast.If):
         return terminates(last.body) and bool(last.orelse) and terminates(last.orelse)
